@@ -26,6 +26,10 @@ CHECKS = {
          "Exploration with an exhaustive core: every token sequence up to length 3 (quick) / 4 (thorough) over 39 type-system token classes, every one-token extension of every viable prefix up to length 6 / 7 and every one-token extension of each freshly dead prefix (51M sequences quick), 29k / 750k single-token mutants of rendered documents, 9.6k / 250k unmutated renderings whose parsed tree must equal the generated tree under two trivia placements, and 2.4k / 62k multi-source parses checking the BuiltIn flag and source identity of every definition and extension.",
          "Trusts the grammar transcription (Oct 2021 Appendix B) and the reference lexer. Six defects repaired (4d982fd, ed840c2, b3e17c4, ce4e730, 4c3db2d, 11abd49); two recorded findings (reserved enum value names accepted - pinned by the suite; empty document accepted).",
          "DESIGN.md §4 C06"),
+ "C07": ("three-way reference-model monitor: valid-by-construction schema generator, 36-entry fault catalogue (one injector per enumerated rule) and an independent type-system rule checker vs gqlparser.LoadSchema; graph-closure monitor over every returned *ast.Schema",
+         "Fault enumeration + exploration: 5k (quick) / 200k (thorough) generated schemas must load; each with every applicable single injected violation (54k / 6M faulted schemas, all 36 rule codes reached, counted per code) must be rejected; 20k / 500k random SDL documents judged in the direction violation => rejected. Every loaded schema is walked: type references, interface/union member kinds, PossibleTypes/Implements equal the relations implied by the definitions (no nil, pointer identity), built-ins, roots, introspection fields.",
+         "Trusts the rule checker (written from the property's rule list and spec section 3) and the C06-checked parser used to read SDL back into the model; rules the loader enforces beyond the enumeration are recognised and not judged. Two defects repaired (4ab1531, adc721d).",
+         "DESIGN.md §4 C07"),
  "C12": ("round-trip monitor: model(parse(x)) = model(parse(format_c(parse(x)))) and text fixpoint, over generated trees with hostile strings x 20 formatter configurations",
          "Exploration: 5k (quick) / 100k (thorough) documents rendered from random syntax trees with hostile string values, directives in every position (incl. variable definitions), fragment variables and comments are parsed, formatted under every combination of comments x compacted x 5 indents (builtin / no-description flags rotated), re-parsed and compared through an independent AST->model adapter; the second format must reproduce the first byte for byte.",
          "Trusts the model adapter and diff; comments and positions are not compared; relative order of operations vs fragments not compared (formatter emits operations first by design). Two defects found by this check were repaired (fix: commits fc85355, 36779a6).",
@@ -39,6 +43,8 @@ CHECKS = {
          "Trusts encoding/json and the harness's model adapter; positions, comments and validation annotations are outside the property and not compared.",
          "DESIGN.md §4 C19"),
 }
+
+LEVELS = {}
 
 PENDING_REASON = "check under construction in this round (design in DESIGN.md §4); not claimed until its monitor runs clean on the unchanged tree"
 
@@ -57,7 +63,7 @@ def main():
                 "evidence_file": f"/verif/evidence/{pid}.json",
                 "replay_cmd_template": f"./run.sh {pid} --replay {{path}}",
                 "engine": "vcheck",
-                "level_claimed": {"category": "exploration", "text": text, "design_ref": ref},
+                "level_claimed": {"category": LEVELS.get(pid, "exploration"), "text": text, "design_ref": ref},
                 "level_note": note,
                 "technique": tech,
             })
